@@ -85,6 +85,14 @@ POOLS = {
         ("MultiPoint", [[3, 1000], [5, 3000]]),
         ("MultiPoint", [[3, 3000], [5, 1000]]),
     ],
+    # affinities far below any 'is it zero?' tolerance: millisecond clicks inside a box covering a whole ten-minute recording
+    # (IoU 1.7e-9); still positive, so the pair is the optimum and must be reported with that affinity
+    "tiny4": [
+        ("BoundingBox", [0, 0, 600, 96000]),
+        ("BoundingBox", [10, 1000, 10.001, 1100]),
+        ("BoundingBox", [20, 2000, 20.001, 2100]),
+        ("BoundingBox", [700, 0, 701, 1000]),
+    ],
     # the remaining geometry types (+ one box for cross-type pairs)
     "x7": [
         ("Point", [1, 1000]),
@@ -101,8 +109,8 @@ BUFFERS = [None, [0.5, 1000.0], [0, 0]]  # defaults (nothing passed); generous b
 
 # (pool, maximum list length, number of shards per buffer setting)
 PLAN = {
-    "quick": [("q6", 3, 32), ("thin6", 2, 2), ("mix6", 2, 2)],
-    "thorough": [("q6", 3, 8), ("t5", 4, 40), ("x7", 3, 16), ("thin6", 3, 8), ("mix6", 3, 8)],
+    "quick": [("q6", 3, 32), ("thin6", 2, 2), ("mix6", 2, 2), ("tiny4", 2, 1)],
+    "thorough": [("q6", 3, 8), ("t5", 4, 40), ("x7", 3, 16), ("thin6", 3, 8), ("mix6", 3, 8), ("tiny4", 3, 4)],
 }
 
 
